@@ -1014,3 +1014,14 @@ func foldBool(v ssa.Value) (bool, bool) {
 	}
 	return false, false
 }
+
+// Instrs2Calls returns the live plain calls accepted by the filter.
+func (g *Graph) Instrs2Calls(filter func(*ssa.Call) bool) []*ssa.Call {
+	var out []*ssa.Call
+	g.Instrs(func(i ssa.Instruction) {
+		if c, ok := i.(*ssa.Call); ok && filter(c) {
+			out = append(out, c)
+		}
+	})
+	return out
+}
